@@ -204,6 +204,13 @@ static void family(const Case &c) {
         // gridDisksUnsafe over origin + up to two neighbours
         std::vector<H3Index> set = {o};
         for (H3Index x : NC.get(o)) if (set.size() < 3) set.push_back(x);
+        // the input is a list, not a set: repeated origins (adjacent and non-adjacent), chosen by the origin so that replay is exact
+        switch (vh::mix64(o, (uint64_t)k) % 4) {
+            case 1: set.insert(set.begin() + 1, o); break;           // {o, o, n1, n2}
+            case 2: set.push_back(o); break;                          // {o, n1, n2, o}
+            case 3: if (set.size() > 1) set.push_back(set.back()); break;  // {o, n1, n2, n2}
+            default: break;
+        }
         // all reference balls first: an unprobeable cell anywhere makes the case undecidable
         for (size_t s = 1; s < set.size(); s++) topo::bfs(NC, set[s], k);
         if (NC.unprobeable) { COUNT("unprobeable(polar res>=14)"); DISCARD(); return; }
